@@ -132,6 +132,7 @@ class Model:
         self.tensors = {}    # key -> full array over all orbitals
         self.meta = {}       # key -> (kind, bk) used at generation time
         self.bk = {}         # name -> bra-ket symmetry forced by assumptions
+        self.alias = {}      # tensor name -> name whose values are used
         self.symbols = {}
         self.zero_blocks = {}  # name -> predicate(space string) -> bool (zero?)
         self._pos_cache = {}
@@ -217,14 +218,15 @@ class Model:
 
     def tensor_factor(self, t):
         """(array over the index ranges of t, index tuple) for tensor object"""
+        name = self.alias.get(t.name, t.name)
         if isinstance(t, NonSymmetricTensor):
             idx = tuple(t.indices)
-            arr = self.full_tensor(t.name, 0, len(idx), "nonsym", 0)
+            arr = self.full_tensor(name, 0, len(idx), "nonsym", 0)
         else:
             kind = "sym" if isinstance(t, SymmetricTensor) else "anti"
             u, l = tuple(t.upper), tuple(t.lower)
-            bk = self.bk.get(t.name, int(t.bra_ket_sym))
-            arr = self.full_tensor(t.name, len(u), len(l), kind, bk)
+            bk = self.bk.get(name, int(t.bra_ket_sym))
+            arr = self.full_tensor(name, len(u), len(l), kind, bk)
             idx = u + l
         if not idx:
             return arr, idx
